@@ -14,8 +14,18 @@ order; choosing another thread while the running one is still enabled costs
 one preemption.  Every execution runs to completion.
 """
 
+import re
 import sys
 import threading
+
+_UUID = re.compile(r"[0-9a-f]{8}-[0-9a-f]{4}-[0-9a-f]{4}-[0-9a-f]{4}-[0-9a-f]{12}")
+
+
+def canon_ids(text):
+    """Rename uuid-like substrings by first occurrence: what a run observes must not depend on
+    *which* unique ids the code under test happens to draw (only on which ones are equal)."""
+    seen = {}
+    return _UUID.sub(lambda m: "<uuid-%d>" % seen.setdefault(m.group(0), len(seen)), text)
 
 CURRENT = None  # the Sched of the execution in progress (one per process)
 
@@ -475,7 +485,7 @@ def explore(setup, bound, trace_files=(), trace_funcs=None, horizon=20000, max_e
         """Replay one recorded schedule and require identical observations."""
         full = [c[1] for c in x.choices]
         y = run_once(setup, full, trace_files, trace_funcs, horizon, op_points_only)
-        if [c[1] for c in y.choices] != full or repr(y.obs) != repr(x.obs):
+        if [c[1] for c in y.choices] != full or canon_ids(repr(y.obs)) != canon_ids(repr(x.obs)):
             raise ReplayDivergence(
                 "schedule %r replayed with different observations" % (full,)
             )
